@@ -243,6 +243,15 @@ func TestPropConverge(t *testing.T) {
 			}
 		}
 		nNew := 0
+		// every history starts with two nodes below the device, so that deletions,
+		// edge points and grandchildren have something to act on from the first step
+		for _, par := range []string{devID, "n1"} {
+			nNew++
+			id := fmt.Sprintf("n%d", nNew)
+			ack(D, id, "", data.Points{{Type: data.PointTypeDescription, Text: id, Time: ts(), Origin: "h-setup"}})
+			ack(D, id, par, data.Points{{Type: data.PointTypeTombstone, Value: 0, Time: ts(), Origin: "h-setup"}, {Type: data.PointTypeNodeType, Text: data.NodeTypeVariable, Origin: "h-setup"}})
+			nodes = append(nodes, edge{par, id})
+		}
 		steps := rapid.IntRange(6, 20).Draw(t, "steps")
 		for i := 0; i < steps; i++ {
 			s := D
@@ -254,7 +263,7 @@ func TestPropConverge(t *testing.T) {
 				ops = append(ops, "linkDown", "linkDown")
 			} else {
 				// stay down for a while and write on both sides during the outage
-				ops = append(ops, "linkUp", "nodePoint", "edgePoint", "delete", "create")
+				ops = append(ops, "linkUp", "nodePoint", "edgePoint", "delete", "delete", "undelete", "create")
 				if i%2 == 0 {
 					s = D
 				} else {
@@ -432,9 +441,10 @@ func TestPropConverge(t *testing.T) {
 					ok = p.TimeNs >= w.p.TimeNs && (p.TimeNs > w.p.TimeNs || (p.Value == w.p.Value && p.Text == w.p.Text))
 				}
 			}
-			// tombstones may legitimately be rewritten later by the sync client itself (newer timestamp);
-			// anything else must be exactly the newest acknowledged write
-			if !ok || (parts[1] != data.PointTypeTombstone && held.TimeNs != w.p.TimeNs) {
+			// every identity the harness wrote (tombstones included: only the device node's own
+			// edge, excluded above, may be re-stamped by the sync client) must hold exactly the
+			// newest acknowledged write: nothing lost, nothing reverted
+			if !ok || held.TimeNs != w.p.TimeNs {
 				t.Fatalf("%s %s/%s: the newest acknowledged write (%s side) was %v, both sides now hold %v\nhistory: %v", w.target, parts[1], parts[2], w.side, w.p, held, hist)
 			}
 		}
